@@ -560,6 +560,18 @@ func (fr *Frame) execInstr(ins ssa.Instruction) {
 	case *ssa.Send:
 		fr.ghostSend(i)
 	case *ssa.Go:
+		// a "spawn <func>" contract records the spawn in ghost state (pending atomic call)
+		if callee, ok := i.Call.Value.(*ssa.Function); ok && callee.Pkg == ex.pkg {
+			key := "spawn " + ex.fnKey(callee)
+			if c, ok := ex.cs.Funcs[key]; ok {
+				args := []*Val{}
+				for _, a := range i.Call.Args {
+					args = append(args, fr.val(a))
+				}
+				fr.applyContract(ins, c, key, callee, callee.Signature, nil, args, SUnit)
+				return
+			}
+		}
 		vc.note("go statement: spawned call has no effect on the spawning function's state")
 	case *ssa.Defer:
 		fr.defers = append(fr.defers, i)
